@@ -20,6 +20,7 @@ type Env struct {
 	pkg     *types.Package
 	bound   map[string]Term
 	margs   map[string]Arg // macro parameters bound to locations
+	frame   *Frame
 }
 
 type specErr struct{ msg string }
@@ -79,6 +80,7 @@ func (g *Gen) frameEnv(f *Frame, st *State, results []Term) *Env {
 	for name, t := range f.named {
 		env.vars[name] = Arg{t: t}
 	}
+	env.frame = f
 	// loop-carried source variables are visible by their source name inside loop clauses
 	// loop-carried source variables (of this loop and of the enclosing ones) by their source name
 	for name, phi := range f.loopNames {
@@ -300,7 +302,19 @@ func manualFieldPath(t types.Type, name string, depth int) []int {
 	return nil
 }
 
+// tr translates a contract expression; slice values read from the heap get their representation invariant.
 func (env *Env) tr(e ast.Expr) Term {
+	t := env.tr0(e)
+	if t.Sort == "Slice" && len(env.bound) == 0 && !strings.HasPrefix(t.S, "(mk_slice") {
+		switch e.(type) {
+		case *ast.SelectorExpr, *ast.IndexExpr, *ast.StarExpr:
+			env.g.assume("true", fmt.Sprintf("(and (<= 0 (s_off %[1]s)) (<= 0 (s_len %[1]s)) (<= (s_len %[1]s) (s_cap %[1]s)) (<= (+ (s_off %[1]s) (s_cap %[1]s)) 9223372036854775807) (<= 0 (s_ref %[1]s)) (=> (= (s_ref %[1]s) 0) (= (s_cap %[1]s) 0)))", t.S))
+		}
+	}
+	return t
+}
+
+func (env *Env) tr0(e ast.Expr) Term {
 	g := env.g
 	switch e := e.(type) {
 	case *ast.ParenExpr:
@@ -746,6 +760,18 @@ func (env *Env) call(e *ast.CallExpr) Term {
 			return boolT(fmt.Sprintf("(forall ((%s Int)) (=> %s %s))", bv, rng, body.S))
 		}
 		return boolT(fmt.Sprintf("(exists ((%s Int)) (and %s %s))", bv, rng, body.S))
+	case "visited":
+		// visited(k): key k was already produced by the enclosing `for ... range map` loop
+		argn(1)
+		if env.frame == nil || env.frame.loopRange == nil {
+			cerr("visited() outside a loop over a map")
+		}
+		rng := env.frame.loopRange
+		mt := types.Unalias(rng.X.Type()).Underlying().(*types.Map)
+		vc, _ := g.visitedComp(mt)
+		k := env.tr(e.Args[0])
+		it := env.frame.vals[rng]
+		return boolT(fmt.Sprintf("(select (select %s %s) %s)", g.get(env.st, vc), it.S, k.S))
 	case "forallstr":
 		// forallstr(k, body): k ranges over all strings
 		argn(2)
@@ -838,6 +864,10 @@ func (env *Env) call(e *ast.CallExpr) Term {
 		x := env.tr(e.Args[0])
 		if env.old == nil {
 			cerr("isfresh needs an entry state")
+		}
+		if x.Sort == "Slice" {
+			// a slice is fresh if it is nil or its backing array was allocated during this call
+			return boolT(fmt.Sprintf("(or (= (s_ref %[1]s) 0) (> (s_ref %[1]s) %[2]s))", x.S, g.now(env.old)))
 		}
 		return boolT(fmt.Sprintf("(> %s %s)", x.S, g.now(env.old)))
 	case "hassuffix":
